@@ -168,8 +168,8 @@ def run_case(idx, rng, P, rep):
     hist = []
     flags = dict(sub=False, meta=False, mut=False)
     if cls is ObjSlots:
-        o.history = [tokv()]
-        o.tag = 'tag%d' % idx
+        o.history = [tokv()] if rng.random() < 0.7 else None       # a slot may well hold None (e.g. an invalidated cache)
+        o.tag = 'tag%d' % idx if rng.random() < 0.7 else None
     if rng.random() < 0.5:
         o.param.watch(o.on_a, 'a')
         hist.append('watch-own-method')
